@@ -104,7 +104,6 @@ require (
 	github.com/vishvananda/netlink v1.3.0 // indirect
 	github.com/vishvananda/netns v0.0.5 // indirect
 	go.uber.org/multierr v1.11.0 // indirect
-	golang.org/x/crypto v0.35.0 // indirect
 	golang.org/x/exp v0.0.0-20250218142911-aa4b98e5adaa // indirect
 	golang.org/x/sys v0.30.0 // indirect
 	golang.org/x/text v0.22.0 // indirect
@@ -117,6 +116,7 @@ require (
 require (
 	github.com/anishathalye/porcupine v1.3.0
 	github.com/fabiolb/fabio v0.0.0
+	golang.org/x/crypto v0.35.0
 )
 
 replace github.com/fabiolb/fabio => /repo
